@@ -115,8 +115,12 @@ def _pod_from_match(pod: str, m: RegexMatch) -> str:
     "|(?P<mod_late>(spät(e(r|n|m))?|late)))",
     predicate("isPOD"),
 )
-def ruleEarlyLatePOD(ts: datetime, m: RegexMatch, p: Time) -> Time:
-    return Time(POD=_pod_from_match(p.POD, m))
+def ruleEarlyLatePOD(ts: datetime, m: RegexMatch, p: Time) -> Optional[Time]:
+    pod = _pod_from_match(p.POD, m)
+    if pod not in pod_hours:
+        # modifier chain the part-of-day table has no entry for
+        return None
+    return Time(POD=pod)
 
 
 _pods = [
